@@ -399,3 +399,132 @@ theorem sw_run {α} (es : List (Ev (HV α))) : ∀ st : St SwSt, st.p.WF →
     rw [run_cons, outVals_append, accepted_cons, swSpec_append, hs.1, ih _ (step_WF _ st e h), hs.2]
 
 end Comb
+
+namespace Comb
+
+/-! ## switch_latest: completion -/
+
+/-- what the completion rule remembers: the latest arrived inner, whether IT has completed since, whether the outer completed -/
+structure SwT where
+  cur : Option Nat := none
+  curDone : Bool := false
+  outerDone : Bool := false
+
+def swTStep {α} (t : SwT) : Nat × Notif (HV α) → SwT
+  | (k, .next (.obs j)) => if k = 0 then { cur := some (j + 1), curDone := false, outerDone := t.outerDone } else t
+  | (k, .completed) =>
+    if k = 0 then { t with outerDone := true }
+    else if t.cur = some k then { t with curDone := true } else t
+  | _ => t
+
+/-- the outer completed, and there is no latest inner or it completed -/
+def swRule (t : SwT) : Prop := t.outerDone = true ∧ (t.cur = none ∨ t.curDone = true)
+
+def swAbs (s : SwSt) : SwT := { cur := s.cur, curDone := s.cur.isSome && !s.hasLatest, outerDone := s.stopped }
+
+structure SwI (st : St SwSt) : Prop where
+  wf : st.p.WF
+  nl : st.s.cur = none → st.s.hasLatest = false
+
+theorem sw_step_I {α} (st : St SwSt) (e : Ev (HV α)) (h : SwI st) : SwI (step (swM (α := α)) st e).1 := by
+  refine ⟨step_WF _ st e h.wf, ?_⟩
+  cases e with
+  | tick => simpa [step, swM] using h.nl
+  | dispose => simpa [step] using h.nl
+  | src k n =>
+    by_cases hk : k ∈ st.p.live
+    · rw [step_src_state _ _ _ _ hk]
+      cases n with
+      | next x =>
+        cases x with
+        | obs j =>
+          simp only [swM, swHandler]
+          split
+          · intro hc; cases hc
+          · exact h.nl
+        | val v => simp only [swM, swHandler]; split <;> (try split) <;> exact h.nl
+      | error er => simp only [swM, swHandler]; split <;> (try split) <;> exact h.nl
+      | completed =>
+        simp only [swM, swHandler]
+        split
+        · exact h.nl
+        · split
+          · intro _; rfl
+          · exact h.nl
+    · rw [step_src_not_live _ _ _ _ hk]; exact h.nl
+
+theorem sw_abs_step {α} (st : St SwSt) (e : Ev (HV α)) (h : SwI st) :
+    swAbs (step (swM (α := α)) st e).1.s = (accOne st e).foldl swTStep (swAbs st.s) := by
+  cases e with
+  | tick => simp [step, swM, accOne]
+  | dispose => simp [step, accOne]
+  | src k n =>
+    by_cases hk : k ∈ st.p.live
+    · rw [step_src_state _ _ _ _ hk]
+      simp only [accOne, hk, if_true, List.foldl_cons, List.foldl_nil, swM]
+      cases n with
+      | next x =>
+        cases x with
+        | obs j => by_cases hk0 : k = 0 <;> simp [swHandler, swTStep, swAbs, hk0]
+        | val v =>
+          by_cases hk0 : k = 0
+          · simp [swHandler, swTStep, swAbs, hk0]
+          · by_cases hc : st.s.cur = some k <;> simp [swHandler, swTStep, swAbs, hk0, hc]
+      | error er =>
+        by_cases hk0 : k = 0
+        · simp [swHandler, swTStep, swAbs, hk0]
+        · by_cases hc : st.s.cur = some k <;> simp [swHandler, swTStep, swAbs, hk0, hc]
+      | completed =>
+        by_cases hk0 : k = 0
+        · simp [swHandler, swTStep, swAbs, hk0]
+        · by_cases hc : st.s.cur = some k
+          · simp [swHandler, swTStep, swAbs, hk0, hc]
+          · simp [swHandler, swTStep, swAbs, hk0, hc]
+    · simp [step_src_not_live _ _ _ _ hk, accOne, hk]
+
+theorem sw_rule_abs (s : SwSt) (hnl : s.cur = none → s.hasLatest = false) :
+    swRule (swAbs s) ↔ (s.stopped = true ∧ s.hasLatest = false) := by
+  simp only [swRule, swAbs]
+  cases hc : s.cur with
+  | none => simp [hnl hc]
+  | some c => simp
+
+theorem sw_rule_step {α} (st : St SwSt) (k : Nat) (n : Notif (HV α)) (h : SwI st)
+    (hr : ¬ swRule (swAbs st.s)) :
+    (Notif.completed ∈ cut (actEmits ((swM (α := α)).handler st.s k n).2) ↔ swRule (swTStep (swAbs st.s) (k, n))) := by
+  have hr' : ¬ (st.s.stopped = true ∧ st.s.hasLatest = false) := fun hh => hr ((sw_rule_abs st.s h.nl).mpr hh)
+  cases n with
+  | next x =>
+    cases x with
+    | obs j =>
+      by_cases hk0 : k = 0
+      · cases hc : st.s.cur <;> simp [swM, swHandler, swTStep, swAbs, swRule, hk0, hc, actEmits, cut]
+      · simpa [swM, swHandler, swTStep, hk0, actEmits, cut] using hr
+    | val v =>
+      by_cases hk0 : k = 0
+      · simpa [swM, swHandler, swTStep, hk0, actEmits, cut] using hr
+      · by_cases hc : st.s.cur = some k
+        · simpa [swM, swHandler, swTStep, hk0, hc, actEmits, cut, Notif.isTerminal] using hr
+        · simpa [swM, swHandler, swTStep, hk0, hc, actEmits, cut] using hr
+  | error er =>
+    by_cases hk0 : k = 0
+    · simpa [swM, swHandler, swTStep, hk0, actEmits, cut, Notif.isTerminal] using hr
+    · by_cases hc : st.s.cur = some k
+      · simpa [swM, swHandler, swTStep, hk0, hc, actEmits, cut, Notif.isTerminal] using hr
+      · simpa [swM, swHandler, swTStep, hk0, hc, actEmits, cut] using hr
+  | completed =>
+    by_cases hk0 : k = 0
+    · subst hk0
+      simp only [swM, swHandler, swTStep, if_true, swRule, swAbs]
+      cases hl : st.s.hasLatest
+      · cases hc : st.s.cur <;> simp [actEmits, cut, Notif.isTerminal]
+      · have : st.s.cur ≠ none := fun hc => by have := h.nl hc; rw [hl] at this; cases this
+        cases hc : st.s.cur with
+        | none => exact absurd hc this
+        | some c => simp [actEmits, cut]
+    · by_cases hc : st.s.cur = some k
+      · simp only [swM, swHandler, swTStep, hk0, hc, if_true, if_false, swRule, swAbs]
+        cases hs : st.s.stopped <;> simp [actEmits, cut, Notif.isTerminal]
+      · simpa [swM, swHandler, swTStep, hk0, hc, actEmits, cut, swAbs] using hr
+
+end Comb
